@@ -5,11 +5,19 @@
     executable transcriptions compared with net/url on every run.  Over the
     resolver state machine: the loader is asked at most once per URI (C03_loader_once), the
     Resolved is rooted at the given schema, and resolution always returns (props/C10.v:
-    never a panic, nested loads bounded by the loader's table).  The lexical specification
-    of base URIs / resources (DESIGN Appendix B) is NOT proved; that part of the property is
-    decided by the correspondence over generated universes. *)
+    never a panic, nested loads bounded by the loader's table).  Lexical designation
+    (res/Designate.v): the tables resolveURIs builds are the lexical ones of the specification
+    - [Lex]: a subschema with a non-fragment $id starts a resource whose URI is that $id
+    resolved against the enclosing resource's URI, every other subschema belongs to its
+    parent's resource; anchors belong to the resource that lexically encloses them - and a
+    reference inside a document is resolved against the URI of its lexically enclosing
+    resource, selects a resource of the document by URI, then an anchor declared inside that
+    resource or a pointer from its root (C03_tables_lexical, C03_ref_designates).  What is
+    not proved: uniqueness of the lexical base as a function of the location (it needs
+    distinct locations, which holds for trees built from Go maps), and references that
+    leave the document (decided by the correspondence over generated universes). *)
 From Coq Require Import List NArith ZArith QArith Bool.
-From JS Require Import Str Lit Json Res GoValue Schema Basic Pointer PointerFacts ChildFacts Addressable Env Uri Resolve ResolveFacts ResolveTotal.
+From JS Require Import Str Lit Json Res GoValue Schema Basic Pointer PointerFacts ChildFacts Addressable Env Uri Resolve ResolveFacts ResolveTotal Designate.
 Import ListNotations.
 
 Theorem C03_pointer_fragment_sound : forall s ptr p c,
@@ -37,6 +45,39 @@ Theorem C03_loader_once : forall re_ok fuel root baseURI loader e calls,
   Resolve re_ok fuel root baseURI loader = Ok (e, calls) -> NoDup calls.
 Proof. exact Resolve_loads_once. Qed.
 Print Assumptions C03_loader_once.
+
+(** every table of a resolved document is lexical: recorded bases, resource URIs, registered
+    URIs and anchors are exactly what the specification's scoping rule [Lex] gives *)
+Theorem C03_tables_lexical : forall root d7 b0 di,
+  (forall p x, In (p, x) (all_sub root) -> good_node x) ->
+  resolveURIs root d7 b0 = Ok di -> Tables root d7 b0 None di /\ di_root di = root /\ di_draft7 di = d7.
+Proof. exact resolveURIs_lex. Qed.
+Print Assumptions C03_tables_lexical.
+
+Theorem C03_ref_designates : forall loader rec di d st p ref st' d' t dynf root d7 b0,
+  Tables root d7 b0 None di -> di_root di = root ->
+  resolveRef loader rec di d st p ref = Ok (st', ((d', t), dynf)) ->
+  exists ref0 base bu,
+    parse_uri ref = POk ref0 /\
+    (exists u, Lex root d7 b0 p base u) /\ Lex root d7 b0 base base bu /\
+    let refURI := resolve_reference bu ref0 in
+    match lookup (uri_string (drop_frag refURI)) (di_uris di) with
+    | Some q =>
+        d' = d /\
+        ((q = [] /\ uri_string (drop_frag refURI) = uri_string b0) \/
+         exists uq, Lex root d7 b0 q q uq /\ uri_string (drop_frag refURI) = uri_string uq) /\
+        (nth_error (r_docs st') d = Some di ->
+         match u_frag refURI with
+         | [] => t = q
+         | c :: _ =>
+             if negb (N.eqb c 47) then
+               exists dyn sa ua, Lex root d7 b0 t q ua /\ subschema_at root t = Some sa /\ declares d7 sa (u_frag refURI) dyn
+             else exists rs r, subschema_at root q = Some rs /\ dereferenceJSONPointer rs (u_frag refURI) = Ok r /\ t = q ++ fst r
+         end)
+    | None => True
+    end.
+Proof. exact resolveRef_designates. Qed.
+Print Assumptions C03_ref_designates.
 
 (** non-vacuity / regression witnesses on the resolver model: a diamond of loader
     documents with an anchor fragment into a cached document (the former panic O-1), each
